@@ -1,18 +1,18 @@
 #!/bin/bash
-# usage: tools/try_all.sh <patch.diff>   applies the patch to /repo, runs ALL quick checks (in parallel), prints new violations, reverts
+# usage: tools/try_all.sh <patch.diff> [Cxx ...]  applies the patch to a scratch copy of /repo (outside /repo and /verif), runs the
+# quick checks (all, or the listed ones) against that copy in parallel, prints the violations, removes the copy.  Development tool.
 set -u
-patch=$1
-cd /repo
-if ! git diff --quiet; then echo "repo dirty"; exit 3; fi
-if ! git apply "$patch" 2>/tmp/apply.err; then echo "PATCH DOES NOT APPLY: $(head -2 /tmp/apply.err)"; git checkout -- . ; exit 4; fi
+patch=$1; shift
+props=${*:-C01 C02 C03 C04 C05 C06 C07 C08 C09 C10 C11 C12 C13 C14 C15 C16 C17 C18 C19 C20}
+work=/var/tmp/wbtry.$$
+mkdir -p $work/src $work/ev
+rsync -a --exclude target --exclude .git /repo/ $work/src/
+if ! (cd $work/src && patch -p1 -s --no-backup-if-mismatch -i "$patch" > $work/patch.log 2>&1); then echo "PATCH DOES NOT APPLY: $(head -3 $work/patch.log)"; rm -rf $work; exit 4; fi
 cd /verif
-out=$(mktemp -d)
-python3 -m wbcheck.facts > /dev/null 2>$out/extract.err || { echo "EXTRACTION FAILED"; tail -5 $out/extract.err; git -C /repo checkout -- .; exit 5; }
-# evidence files are rewritten by the checks: keep the committed ones
-printf '%s\n' C01 C02 C03 C04 C05 C06 C07 C08 C09 C10 C11 C12 C13 C14 C15 C16 C17 C18 C19 C20 | xargs -P 10 -I{} sh -c "./check {} > $out/{}.log 2>&1"
-for p in C01 C02 C03 C04 C05 C06 C07 C08 C09 C10 C11 C12 C13 C14 C15 C16 C17 C18 C19 C20; do
-  if grep -q VIOLATION $out/$p.log || grep -q ERROR $out/$p.log; then grep -E "^  C|ERROR|VIOLATION" $out/$p.log | grep -v "^VIOLATION" | cut -c1-330; fi
+export WBVERIF_REPO=$work/src WBVERIF_EVIDENCE=$work/ev
+python3 -m wbcheck.facts $work/src > /dev/null 2>$work/extract.err || { echo "EXTRACTION FAILED"; grep -E "^error" -A6 $work/extract.err | head -12; rm -rf $work; exit 5; }
+printf '%s\n' $props | xargs -P 8 -I{} sh -c "./check {} > $work/{}.log 2>&1"
+for p in $props; do
+  if grep -q -E "VIOLATION|ERROR" $work/$p.log; then grep -E "^  C|ERROR" $work/$p.log | cut -c1-330; fi
 done
-rm -rf $out
-git -C /repo checkout -- .
-git -C /verif checkout -- evidence 2>/dev/null
+rm -rf $work
